@@ -60,6 +60,16 @@ def read_all_digest():
     return h
 
 
+def _all_writers():
+    import pycaption
+    from pycaption.dfxp.extras import LegacyDFXPWriter, SinglePositioningDFXPWriter
+    return [pycaption.SRTWriter, pycaption.WebVTTWriter, pycaption.DFXPWriter, pycaption.SAMIWriter, pycaption.MicroDVDWriter,
+            pycaption.SCCWriter, LegacyDFXPWriter, SinglePositioningDFXPWriter]
+
+
+ALL_WRITERS = _all_writers()
+
+
 def scramble(obj, seen):
     """edit, in place, every number and enumeration value reachable from a layout object"""
     import enum
@@ -126,13 +136,27 @@ def bounded(ctx, b):
                         if lay is not None:
                             scramble(lay, set())        # in-place edits of the alignment / point / size objects below it
                             lay.origin, lay.extent, lay.alignment = None, None, None
+                    # ... nor does editing the node objects themselves (breaks included)
+                    from pycaption.geometry import Layout, Point, Size, UnitEnum
+                    for n_ in c0.nodes:
+                        n_.layout_info = Layout(origin=Point(Size(3, UnitEnum.PERCENT), Size(4, UnitEnum.PERCENT)))
+                        n_.content = "edited"
+                        n_.position = (1, 1)
                     first.get_captions(lang).append(copy.deepcopy(c0))
-                # unrelated activity in the process
-                for Wr in (SRTWriter, DFXPWriter):
-                    try:
-                        Wr().write(copy.deepcopy(second))       # (whether a writer alters its input is C09's business)
-                    except Exception:
-                        pass
+                # unrelated activity in the process: every writer, on a copy of this result and on a set of its own with
+                # concurrent captions and line breaks (the single-position / legacy writers merge and reposition those)
+                from pycaption import CaptionSet, CaptionList, Caption
+                from pycaption.geometry import Layout as _L, Point as _P, Size as _S, UnitEnum as _U
+                own = CaptionSet({"en-US": CaptionList([
+                    Caption(10 ** 6, 2 * 10 ** 6, [CaptionNode.create_text("a"), CaptionNode.create_break(), CaptionNode.create_text("b")]),
+                    Caption(10 ** 6, 2 * 10 ** 6, [CaptionNode.create_text("c")]), Caption(3 * 10 ** 6, 4 * 10 ** 6, [CaptionNode.create_text("d")])])})
+                for Wr in ALL_WRITERS:
+                    for target in (copy.deepcopy(second), own):
+                        try:
+                            w_ = Wr(default_positioning=_L(origin=_P(_S(10, _U.PERCENT), _S(10, _U.PERCENT)))) if Wr.__name__ == "SinglePositioningDFXPWriter" else Wr()
+                            w_.write(target)       # (whether a writer alters its input is C09's business)
+                        except Exception:
+                            pass
                 third = r.read(a)
                 fourth = R().read(a)
                 ok = samples.dump(second) == fresh[i] and samples.dump(third) == fresh[i] and samples.dump(fourth) == fresh[i]
